@@ -6,11 +6,11 @@ d=$(readlink -f "$1"); wt=$(mktemp -d /tmp/confwt_XXXXXX); rmdir $wt
 git -C /repo worktree add -q --detach $wt HEAD || exit 2
 trap 'git -C /repo worktree remove --force $wt 2>/dev/null; rm -rf $wt' EXIT
 log=$(mktemp)
-{ echo "== demo on clean tree"; (cd $wt && PYTHONPATH=$wt timeout 600 /venv/bin/python $d/demo.py >/tmp/conf_demo_clean.log 2>&1); c=$?; echo "exit=$c"; tail -2 /tmp/conf_demo_clean.log
+{ echo "== demo on clean tree"; (cd $wt && PYTHONPATH=$wt timeout 600 /venv/bin/python $d/demo.py >$log.clean 2>&1); c=$?; echo "exit=$c"; tail -2 $log.clean
   echo "== patch applied"; git -C $wt apply $d/patch.diff && git -C $wt status --short
   echo "== tests with patch"; (cd $wt && PYTHONPATH=$wt /venv/bin/python -m pytest -q -p no:cacheprovider --timeout=900 tests 2>&1 | tail -1)
   (cd $wt && git clean -fdXq)
-  echo "== demo on patched tree"; (cd $wt && PYTHONPATH=$wt timeout 600 /venv/bin/python $d/demo.py >/tmp/conf_demo_patched.log 2>&1); p=$?; echo "exit=$p"; tail -4 /tmp/conf_demo_patched.log | cut -c1-300; } > $log 2>&1
+  echo "== demo on patched tree"; (cd $wt && PYTHONPATH=$wt timeout 600 /venv/bin/python $d/demo.py >$log.patched 2>&1); p=$?; echo "exit=$p"; tail -4 $log.patched | cut -c1-300; } > $log 2>&1
 cat $log
 python3 - "$d" "$log" <<'PY'
 import json,sys
@@ -20,4 +20,4 @@ m["independently_confirmed"]={"how":"tools/confirm_seed.sh: fresh scratch worktr
 m["origin"]="written by an independent sub-agent that saw only the property text and its own worktree"
 json.dump(m,open(d+"/meta.json","w"),indent=1)
 PY
-rm -f $log
+rm -f $log $log.clean $log.patched
